@@ -1455,6 +1455,12 @@ func (fr *Frame) callSiteSpecs(b *ssa.BasicBlock, idx int, ins ssa.Instruction, 
 			avs = append(avs, fr.val(a))
 		}
 		fr.callArgVals[fmt.Sprintf("%s#%d", name, n)] = avs
+	} else if snd, ok := ins.(*ssa.Send); ok {
+		// a send is addressed as chansend(channel, value)
+		if fr.callArgVals == nil {
+			fr.callArgVals = map[string][]*Val{}
+		}
+		fr.callArgVals[fmt.Sprintf("%s#%d", name, n)] = []*Val{fr.val(snd.Chan), fr.val(snd.X)}
 	}
 	top := fr.fcTop()
 	if top == nil || fr.dry || fr.parent != nil {
@@ -1479,6 +1485,8 @@ func (fr *Frame) callSiteSpecs(b *ssa.BasicBlock, idx int, ins ssa.Instruction, 
 			for _, a := range r.Results {
 				env.callArgs = append(env.callArgs, fr.val(a))
 			}
+		} else if snd, ok := ins.(*ssa.Send); ok {
+			env.callArgs = []*Val{fr.val(snd.Chan), fr.val(snd.X)}
 		}
 		if len(cs.Assume) > 0 && cc != nil {
 			// ... and once more right after the call, when its result can be named
